@@ -443,6 +443,7 @@ type Specs struct {
 	FnFields    map[string]string // heap origin of a function-typed field -> the only function ever stored there
 	ChanClassOf map[string]string // heap origin -> channel class of every non-nil channel stored there
 	ObjInvs   map[string][]*Clause
+	OnDelete  map[string][]*Clause // map field key (pkg.Type.field) -> what must hold of an entry when it is deleted
 	FieldDefaults map[string]*FieldSpec
 	Classes   map[string]*ChanClass
 	ClassList []*ChanClass
@@ -454,7 +455,7 @@ type Specs struct {
 var labelRe = regexp.MustCompile(`^([a-z_-]+)(?:\[([^\]]*)\])?\s*(.*)$`)
 
 func readSpecs(dir string) (*Specs, error) {
-	sp := &Specs{Funcs: map[string]*FuncSpec{}, Locks: map[string]*LockSpec{}, Fields: map[string]*FieldSpec{}, Chans: map[string]*ChanSpec{}, Classes: map[string]*ChanClass{}, ObjInvs: map[string][]*Clause{}, FieldDefaults: map[string]*FieldSpec{}}
+	sp := &Specs{Funcs: map[string]*FuncSpec{}, Locks: map[string]*LockSpec{}, Fields: map[string]*FieldSpec{}, Chans: map[string]*ChanSpec{}, Classes: map[string]*ChanClass{}, ObjInvs: map[string][]*Clause{}, OnDelete: map[string][]*Clause{}, FieldDefaults: map[string]*FieldSpec{}}
 	// built-in class 1 "ctx.done": the Done channel of a context (prelude: ch_class(ctx_donech c) = 1).
 	// Nothing is ever sent on it, so a receive from it succeeds only once it is closed.
 	if fe, err := parseSpecExpr("false"); err == nil {
@@ -878,6 +879,19 @@ func (sp *Specs) readFile(path string) error {
 			}
 			c.Func = "objinv " + tn
 			sp.ObjInvs[tn] = append(sp.ObjInvs[tn], c)
+		case "ondelete":
+			// ondelete[labels] <pkg.Type.field> : expr   (key, entry = the map's value for key before the delete)
+			i := strings.Index(rest, ":")
+			if i < 0 {
+				return fail("ondelete needs ':'")
+			}
+			fk := strings.TrimSpace(rest[:i])
+			c, err := mk("ondelete", strings.TrimSpace(rest[i+1:]))
+			if err != nil {
+				return err
+			}
+			c.Func = "ondelete " + fk
+			sp.OnDelete[fk] = append(sp.OnDelete[fk], c)
 		case "fnfield":
 			// fnfield <origin> is <funcKey>
 			f := strings.Fields(rest)
